@@ -75,9 +75,9 @@ def run(ctx):
     per_site, benign_all, sample = {}, [], None
     for pkg, site, devname, formats in F.X_SITES:
         for fmt in formats:
-            # quick: the plain-tar path of the HTTP extractor differs only in the decompression step: every 3rd archive
-            sel = cases if (fmt != "plain" or not quick) else [c for c in cases if c["id"] % 3 == ctx.seed % 3 or
-                                                               c.get("from_dev")]
+            # quick: the plain-tar path of the HTTP extractor differs only in the decompression step: every 3rd (thorough: 2nd) archive
+            k = 3 if quick else 2
+            sel = cases if fmt != "plain" else [c for c in cases if c["id"] % k == ctx.seed % k or c.get("from_dev")]
             summ, mism, escapes = F.x_replay(ctx, sel, pkg=pkg, plain=(fmt == "plain"), name="untar_%s.json" % fmt)
             if summ.get("site") != site:
                 raise vf.Infra("harness bound to %r, expected %r" % (summ.get("site"), site))
